@@ -21,12 +21,14 @@ import (
 	"io/fs"
 	"math/rand"
 	"os"
+	"path"
 	"path/filepath"
 	"sort"
 	"strconv"
 	"strings"
 	"sync"
 
+	"github.com/google/osv-scalibr/artifact/image/require"
 	"github.com/google/osv-scalibr/artifact/image/unpack"
 	"github.com/google/osv-scalibr/log"
 
@@ -55,12 +57,41 @@ type ent struct {
 	link string
 }
 
-func line(es []ent) string {
+// ucfg: an UnpackerConfig and a requirer (req = "A" all, "N" none, "P" the path strings in `paths`; @D@ = the unpack directory)
+type ucfg struct {
+	cut               int // >= 0: the tarball is cut inside this entry (a regular file: after the first byte of its body; else inside the header)
+	retain, errReturn bool
+	maxPass, maxBytes int64
+	req               byte
+	paths             []string
+}
+
+var defaultCfg = ucfg{cut: -1, retain: true, maxPass: 3, maxBytes: unpack.DefaultMaxFileBytes, req: 'A'}
+
+func (c ucfg) isDefault() bool {
+	return c.cut < 0 && c.retain && !c.errReturn && c.maxPass == 3 && c.maxBytes == unpack.DefaultMaxFileBytes && c.req == 'A'
+}
+
+func line(c ucfg, es []ent) string {
 	xs := make([]string, len(es))
 	for i, e := range es {
 		xs[i] = fmt.Sprintf("%c:%s:%d:%s", e.typ, hx.Hex(e.name), e.cid, hx.Hex(e.link))
 	}
-	return "up " + hx.Join(xs, ";")
+	if c.isDefault() {
+		return "up " + hx.Join(xs, ";")
+	}
+	req := string(c.req)
+	if c.req == 'P' {
+		hs := make([]string, len(c.paths))
+		for i, q := range c.paths {
+			hs[i] = hx.Hex(q)
+		}
+		req += strings.Join(hs, ",")
+	}
+	if c.cut >= 0 {
+		return fmt.Sprintf("upx %d %s,%s,%d,%d %s %s", c.cut, hx.B(c.retain), hx.B(c.errReturn), c.maxPass, c.maxBytes, req, hx.Join(xs, ";"))
+	}
+	return fmt.Sprintf("upc %s,%s,%d,%d %s %s", hx.B(c.retain), hx.B(c.errReturn), c.maxPass, c.maxBytes, req, hx.Join(xs, ";"))
 }
 
 func must(err error) {
@@ -69,14 +100,41 @@ func must(err error) {
 	}
 }
 
-func parse(l string) []ent {
+func parse(l string) (ucfg, []ent) {
 	t := strings.Split(l, " ")
-	if len(t) != 2 || t[0] != "up" {
+	c := defaultCfg
+	switch {
+	case len(t) == 2 && t[0] == "up":
+	case (len(t) == 4 && t[0] == "upc") || (len(t) == 5 && t[0] == "upx"):
+		if t[0] == "upx" {
+			k, err := strconv.Atoi(t[1])
+			must(err)
+			c.cut = k
+			t = t[1:]
+		}
+		f := strings.Split(t[1], ",")
+		if len(f) != 4 {
+			panic("bad config " + t[1])
+		}
+		c.retain, c.errReturn = f[0] == "1", f[1] == "1"
+		var err error
+		c.maxPass, err = strconv.ParseInt(f[2], 10, 64)
+		must(err)
+		c.maxBytes, err = strconv.ParseInt(f[3], 10, 64)
+		must(err)
+		c.req = t[2][0]
+		if c.req == 'P' && len(t[2]) > 1 {
+			for _, h := range strings.Split(t[2][1:], ",") {
+				c.paths = append(c.paths, hx.UnHex(h))
+			}
+		}
+		t = []string{"up", t[3]}
+	default:
 		panic("bad case line " + l)
 	}
 	var es []ent
 	if t[1] == "-" {
-		return es
+		return c, es
 	}
 	for _, s := range strings.Split(t[1], ";") {
 		f := strings.Split(s, ":")
@@ -87,7 +145,7 @@ func parse(l string) []ent {
 		must(err)
 		es = append(es, ent{typ: f[0][0], name: hx.UnHex(f[1]), cid: cid, link: hx.UnHex(f[3])})
 	}
-	return es
+	return c, es
 }
 
 func snapshot(root string) []string {
@@ -145,7 +203,7 @@ var base string
 var caseSeq int
 var seqMu sync.Mutex
 
-func run(es []ent) string {
+func run(c ucfg, es []ent) string {
 	return hx.Guard(func() string {
 		seqMu.Lock()
 		caseSeq++
@@ -166,10 +224,18 @@ func run(es []ent) string {
 
 		var buf bytes.Buffer
 		tw := tar.NewWriter(&buf)
-		for _, e := range es {
+		cutAt := -1
+		for k, e := range es {
 			// @D@ in a link text stands for the actual unpack directory, @d@ for the same without its leading slash
 			e.link = strings.ReplaceAll(strings.ReplaceAll(e.link, "@D@", target), "@d@", strings.TrimPrefix(target, "/"))
 			h, body := header(e)
+			if k == c.cut {
+				must(tw.Flush())
+				cutAt = buf.Len() + 200
+				if body != nil {
+					cutAt = buf.Len() + 512 + 1
+				}
+			}
 			if err := tw.WriteHeader(h); err != nil {
 				return "tarerr"
 			}
@@ -180,11 +246,32 @@ func run(es []ent) string {
 			}
 		}
 		must(tw.Close())
+		tarBytes := buf.Bytes()
+		if cutAt >= 0 && cutAt < len(tarBytes) {
+			tarBytes = tarBytes[:cutAt]
+		}
 		// the tarball lives outside the sandbox root
 		tp := filepath.Join(base, fmt.Sprintf("c%d.tar", id))
-		must(os.WriteFile(tp, buf.Bytes(), 0o644))
+		must(os.WriteFile(tp, tarBytes, 0o644))
 		defer os.Remove(tp)
-		u, err := unpack.NewUnpacker(unpack.DefaultUnpackerConfig())
+		cfg := unpack.DefaultUnpackerConfig().WithMaxPass(int(c.maxPass)).WithMaxFileBytes(c.maxBytes)
+		if !c.retain {
+			cfg = cfg.WithSymlinkResolution(unpack.SymlinkIgnore)
+		}
+		if c.errReturn {
+			cfg.SymlinkErrStrategy = unpack.SymlinkErrReturn
+		}
+		switch c.req {
+		case 'N':
+			cfg = cfg.WithRequirer(&require.FileRequirerNone{})
+		case 'P':
+			ps := make([]string, len(c.paths))
+			for i, q := range c.paths {
+				ps[i] = strings.ReplaceAll(q, "@D@", target)
+			}
+			cfg = cfg.WithRequirer(require.NewFileRequirerPaths(ps))
+		}
+		u, err := unpack.NewUnpacker(cfg)
 		must(err)
 		uerr := u.UnpackSquashedFromTarball(target, tp)
 		post := snapshot(root)
@@ -327,6 +414,22 @@ func randCase(r *rand.Rand) []ent {
 			es[2] = ent{typ: 'l', name: es[0].name + "/" + plain[r.Intn(3)], cid: 3, link: simplePath(r, 1)}
 		}
 	}
+	// two steps out: a directory link INSIDE the root that lifts what follows to the root (p/q/d -> "/" or the unpack directory), a link
+	// made through it whose relative target is lexically inside and physically outside (finding 37), then files, directories and links
+	// written through THAT link: nothing of them may appear outside
+	if mode >= 72 && mode < 80 && len(es) >= 3 {
+		lift := []string{"/", "@D@", "@D@/", "/."}[r.Intn(4)]
+		dl := simplePath(r, 2) + "/d"
+		out := []string{"../target-evil", "../secret", "..", "../../sb/target-evil", "../target-evil/."}[r.Intn(5)]
+		es[0] = ent{typ: 'l', name: dl, cid: 1, link: lift}
+		es[1] = ent{typ: 'l', name: dl + "/x", cid: 2, link: out}
+		for k := 2; k < len(es); k++ {
+			es[k].name = []string{"x/", dl + "/x/"}[r.Intn(2)] + simplePath(r, 2)
+			if es[k].typ == 'd' {
+				es[k].name += "/"
+			}
+		}
+	}
 	// drop what archive/tar refuses to write (e.g. an empty name)
 	var ok []ent
 	for _, e := range es {
@@ -336,6 +439,42 @@ func randCase(r *rand.Rand) []ent {
 	}
 	return ok
 }
+
+// randCfg: symlink resolution, error strategy, passes, size limit (bodies are "c<cid>": 2 or 3 bytes), requirer; the path set of a
+// FileRequirerPaths is drawn from the spellings the unpacker asks for (cleanPath, "/"+cleanPath, dir/cleanPath) of some entries
+func randCfg(r *rand.Rand, es []ent) ucfg {
+	c := ucfg{cut: -1, retain: r.Intn(5) < 2, errReturn: r.Intn(3) == 0, maxPass: int64(r.Intn(5)), maxBytes: []int64{0, 1, 2, 3, unpack.DefaultMaxFileBytes}[r.Intn(5)], req: 'A'}
+	switch x := r.Intn(100); {
+	case x < 8:
+		c.req = 'N'
+	case x < 50:
+		c.req = 'P'
+		for _, e := range es {
+			cl := path.Clean(e.name)
+			switch r.Intn(6) {
+			case 0:
+				c.paths = append(c.paths, cl)
+			case 1:
+				c.paths = append(c.paths, path.Join("/", cl))
+			case 2:
+				c.paths = append(c.paths, "@D@/"+strings.TrimPrefix(cl, "/"))
+			case 3:
+				c.paths = append(c.paths, e.name)
+			}
+		}
+		if len(c.paths) == 0 {
+			c.paths = []string{"a"}
+		}
+	}
+	if r.Intn(8) == 0 && len(es) > 0 {
+		c.cut = r.Intn(len(es))
+	}
+	return c
+}
+
+// the working directory of the process (relative link targets are READ from it in the non-retain mode): four levels deep, so that
+// up to three ".." stay inside it; contents a c b/a b/c target secret = c90 … c95
+var cwdFiles = []struct{ p, body string }{{"a", "c90"}, {"c", "c91"}, {"b/a", "c92"}, {"b/c", "c93"}, {"target", "c94"}, {"secret", "c95"}}
 
 func header(e ent) (*tar.Header, []byte) {
 	h := &tar.Header{Name: e.name, Mode: 0o644, Format: tar.FormatPAX}
@@ -392,10 +531,29 @@ func main() {
 	base, err = filepath.EvalSymlinks(base)
 	must(err)
 	defer os.RemoveAll(base)
+	if o.Replay != "" {
+		o.Replay, err = filepath.Abs(o.Replay) // the working directory is about to change
+		must(err)
+	}
+	cwd := filepath.Join(base, "cwdroot", "w", "w", "w", "w")
+	must(os.MkdirAll(filepath.Join(cwd, "b"), 0o755))
+	for _, f := range cwdFiles {
+		must(os.WriteFile(filepath.Join(cwd, f.p), []byte(f.body), 0o644))
+	}
+	must(os.Chdir(cwd))
+	cwdBefore := strings.Join(snapshot(filepath.Join(base, "cwdroot")), ",")
+	defer func() {
+		if strings.Join(snapshot(filepath.Join(base, "cwdroot")), ",") != cwdBefore {
+			fmt.Fprintln(os.Stderr, "c06gen: the working directory changed during the run")
+			os.RemoveAll(base)
+			os.Exit(3)
+		}
+	}()
 	out := hx.NewOut()
 	defer out.Flush()
 
 	type job struct {
+		c    ucfg
 		es   []ent
 		line string
 		res  chan string
@@ -408,7 +566,7 @@ func main() {
 		go func() {
 			defer wg.Done()
 			for j := range jobs {
-				j.res <- run(j.es)
+				j.res <- run(j.c, j.es)
 			}
 		}()
 	}
@@ -419,20 +577,25 @@ func main() {
 		}
 		close(done)
 	}()
-	submit := func(es []ent, l string) {
-		j := job{es: es, line: l, res: make(chan string, 1)}
+	submit := func(c ucfg, es []ent, l string) {
+		j := job{c: c, es: es, line: l, res: make(chan string, 1)}
 		order <- j
 		jobs <- j
 	}
 	if o.Replay != "" {
 		for _, l := range hx.ReplayLines(o.Replay) {
-			submit(parse(l), l)
+			c, es := parse(l)
+			submit(c, es, l)
 		}
 	} else {
 		r := hx.Rng(o)
 		for i := 0; i < o.N; i++ {
 			es := randCase(r)
-			submit(es, line(es))
+			c := defaultCfg
+			if i%5 >= 3 { // two fifths of the archives under another configuration
+				c = randCfg(r, es)
+			}
+			submit(c, es, line(c, es))
 		}
 	}
 	close(jobs)
